@@ -193,6 +193,11 @@ func VerifC07_Attest() {
 	if err != nil {
 		panic(err)
 	}
+	// the evidence may come without any receipt at all
+	hasReceipt := sym.Bool("receipt-supplied")
+	if !hasReceipt {
+		rb = nil
+	}
 	voters := 2 + sym.Choice("voters", 2) // 4 members: 50% (no quorum) or 75%
 	c07Evidence(env, id, txb, rb, voters)
 	before := c07Count(env, target.ValsetID)
@@ -210,13 +215,13 @@ func VerifC07_Attest() {
 	if after > 0 {
 		sym.Reach("snapshot-marked-live")
 		sym.Assert(same, "success-effects-only-for-the-exact-call-data")
-		sym.Assert(status == 1, "success-effects-only-with-a-successful-receipt")
+		sym.Assert(hasReceipt && status == 1, "success-effects-only-with-a-successful-receipt")
 		sym.Assert(voters >= 3, "success-effects-only-with-two-thirds-evidence")
 		sym.Assert(after == 1, "success-effects-applied-once")
 		sym.Assert(c06Load(env, id) == nil, "delivered-message-leaves-the-queue")
 	} else {
 		sym.Reach("snapshot-not-marked-live")
-		sym.Assert(!(same && status == 1 && voters >= 3), "matching-successful-transaction-with-quorum-is-accepted")
+		sym.Assert(!(same && hasReceipt && status == 1 && voters >= 3), "matching-successful-transaction-with-quorum-is-accepted")
 	}
 }
 
